@@ -794,6 +794,11 @@ func (t *Transport) newClientConn(c net.Conn, singleUse bool) (*ClientConn, erro
 	for _, p := range t.PriorityFrames {
 		cc.fr.WritePriority(p.StreamID, p.PriorityParam)
 		cc.nextStreamID = p.StreamID + 2
+		if cc.nextStreamID%2 == 0 {
+			// Streams initiated by a client use odd identifiers (RFC 9113,
+			// section 5.1.1), whatever stream the caller's PRIORITY frame names.
+			cc.nextStreamID++
+		}
 	}
 
 	cc.inflow.init(int32(connFlow) + initialWindowSize)
